@@ -297,6 +297,8 @@ def comparison_members(model: Model):
     pname = ic.args.args[0].arg
     consts = {f"Operation.{n_}.value": v_ for n_, v_ in ops.items()}
     consts.update({f"Operation.{n_}": f"<{n_}>" for n_ in ops})
+    # named bounds at module level (`_COMPARISON_VALUE_BEGIN = 200`)
+    consts.update({k_: v_.value for k_, v_ in model.file(OP).assigns.items() if isinstance(v_, ast.Constant) and isinstance(v_.value, (int, str))})
     sel = []
     for name, val in ops.items():
         try:
@@ -394,7 +396,13 @@ def check_pipeline(model: Model, col, rule: str):
               f"{shots} is an iterator: the first Compile on a Compiler consumes it, every later Compile on the same object runs no pass of that list "
               "(nothing is typed, validated or rewritten the second time)", COMPILER, pipe.cls.node)
     # every pass of the pinned tree is scheduled: in a pass list or created in Compile
-    made = set(pipe.ast_passes) | set(pipe.ir_passes) | {dotted(c.func.value).split(".")[-1] for c in ast.walk(comp) if isinstance(c, ast.Call) and last_attr(c) == "GetPass"
+    # (Compile and the private methods of the compiler it calls - a lowering or wasm step extracted into a helper with early exits)
+    reach = [comp]
+    for _ in range(2):
+        for nm_, m_ in pipe.cls.methods.items():
+            if m_ not in reach and nm_ not in ("__init__", "Compile") and any(isinstance(c, ast.Call) and last_attr(c) in (nm_, "__" + nm_.split("__")[-1]) for f_ in reach for c in ast.walk(f_)):
+                reach.append(m_)
+    made = set(pipe.ast_passes) | set(pipe.ir_passes) | {dotted(c.func.value).split(".")[-1] for f_ in reach for c in ast.walk(f_) if isinstance(c, ast.Call) and last_attr(c) == "GetPass"
                                                             and isinstance(c.func, ast.Attribute) and dotted(c.func.value)}
     init = pipe.cls.own_method("__init__")
     held = {dotted(c.func.value).split(".")[-1] for c in ast.walk(init) if isinstance(c, ast.Call) and last_attr(c) == "GetPass" and isinstance(c.func, ast.Attribute) and dotted(c.func.value)}
